@@ -28,6 +28,7 @@ func newPrelude(bv bool) *Prelude {
 (declare-fun sat (Str Int) Int)
 (declare-datatypes ((Iface 0)) (((mkI (itag Int) (ipay Int)))))
 (declare-datatypes ((Slice 0)) (((mkS (sbase Int) (soff Int) (slen_ Int) (scap Int)))))
+(declare-fun isptrtag (Int) Bool)
 (declare-fun elem (Int Int) Int)
 (declare-fun ebase (Int) Int)
 (declare-fun eidx (Int) Int)
@@ -63,6 +64,13 @@ func (p *Prelude) tag(t types.Type) int {
 	}
 	v := len(p.typeTags) + 1
 	p.typeTags[k] = v
+	// only pointer-shaped dynamic types carry a heap reference as payload; other values are boxed
+	switch t.Underlying().(type) {
+	case *types.Pointer, *types.Map, *types.Chan:
+		p.decls = append(p.decls, fmt.Sprintf("(assert (isptrtag %d))", v))
+	default:
+		p.decls = append(p.decls, fmt.Sprintf("(assert (not (isptrtag %d)))", v))
+	}
 	return v
 }
 
